@@ -11,9 +11,14 @@ MEGABYTE = 1024 * 1024
 
 def case_bytes(case):
     f = case.split()
-    key = bytes.fromhex(f[4]) if f[4] != "-" else b""
-    value = bytes.fromhex(f[5]) if f[5] != "-" else b""
-    return int(f[1]), int(f[2]), int(f[3]), key, value
+    key = bytes.fromhex(f[6]) if f[6] != "-" else b""
+    value = bytes.fromhex(f[7]) if f[7] != "-" else b""
+    return int(f[3]), int(f[4]), int(f[5]), key, value
+
+
+def case_cluster(case):
+    c = case.split()[2]
+    return bytes.fromhex(c) if c != "-" else b""
 
 
 def oracle(case, impl_line):
@@ -29,6 +34,10 @@ def oracle(case, impl_line):
             return "allocated %d bytes for a message of %d bytes (bound: size + %d)" % (alloc, size, BOUND_SLACK)
         if size > LARGE and len(reqs) <= 50 and alloc > MEGABYTE:
             return "allocated %d bytes (megabytes) for a message of %d bytes that yields %d requests" % (alloc, size, len(reqs))
+    cluster = case_cluster(case)
+    for r in reqs:
+        if r.split()[1] != W.hx(cluster):
+            return "request %r is not addressed to the module's cluster %s" % (r, W.hx(cluster))
     commits = [r for r in reqs if r.startswith("offset ")]
     if len(commits) > 1:
         return "more than one consumer-offset update for one message"
@@ -40,7 +49,7 @@ def oracle(case, impl_line):
             if sc is None:
                 return "storage update for a commit with a field cut short or an impossible length: " + commits[0]
             g, t, p, off, ts = sc
-            want = W.fmt_req("offset", g, t, p, off, ts, order)
+            want = W.fmt_req("offset", cluster, g, t, p, off, ts, order)
             if commits[0] != want:
                 return "update %r does not carry the message's fields %r" % (commits[0], want)
     return None
@@ -83,7 +92,8 @@ def run(chk, failed):
                 "under ulimit -v 4 GiB (journal before execute; a dead child is an observation) and through the model; checked on "
                 "the implementation: no panic / death, TotalAlloc delta <= message size + 64 KiB (messages up to 4 KiB; larger ones, "
                 "which yield at most 50 requests: <= 1 MiB, the property's `never megabytes`), at most one update per commit "
-                "and only for a commit whose fields a strict reader finds complete, carrying exactly those fields; "
+                "and only for a commit whose fields a strict reader finds complete, carrying exactly those fields, every request "
+                "addressed to the module's configured cluster (the module's own name differs from it in 4 of 6 configurations); "
                 "non-trivial = the key carries a known version (0, 1 or 2), i.e. decoding goes past the dispatch; "
                 "distinct by the case line")
     impl, model, mism = chk.differential("wire", "wire", "TestVerifProbeWire", cases, name="hostile", project=W.project)
